@@ -28,17 +28,17 @@ def run(ctx, res):
     prog = ctx.program()
     res.extra["explanation"] = EXPLANATION
     res.assumptions += ["the channel delivers committed bytes exactly once in order and 'empty' means 'drained' (C01)"]
-    n = RR.rule_unmapped_pre(prog, res)
-    RR.rule_stop_sequence(prog, res)
-    RR.rule_loop_until_empty(prog, res, "acquire_stop", "last")
-    RR.rule_pairs(prog, res, ["acquire_stop"])
-    RR.rule_passthrough(prog, res)
-    RR.rule_consume(prog, res, "acquire_stop", "discard")
+    n = res.guard(RR.rule_unmapped_pre, prog, res) or 0
+    res.guard(RR.rule_stop_sequence, prog, res)
+    res.guard(RR.rule_loop_until_empty, prog, res, "acquire_stop", "last")
+    res.guard(RR.rule_pairs, prog, res, ["acquire_stop"])
+    res.guard(RR.rule_passthrough, prog, res)
+    res.guard(RR.rule_consume, prog, res, "acquire_stop", "discard")
     # channel clauses the monitor depends on (partial consumption, flush to empty)
     la = LockAnalysis(prog)
-    rule_empty_drained(prog, res)
-    rule_cursor_pair(prog, res, la)
-    rule_cursor_copy(prog, res, la)
+    res.guard(rule_empty_drained, prog, res)
+    res.guard(rule_cursor_pair, prog, res, la)
+    res.guard(rule_cursor_copy, prog, res, la)
     # observation: a status that gates a public entry point and has no reset
     resets = 0
     for f in prog.all_funcs():
